@@ -24,12 +24,16 @@ package interp
 //@   preserves anycell([]ast.Expr), anycell([]ast.Pair), anycell([]ast.Field)
 //@   records interp resolveFun interpArgs val.(*FunVal).Call listSel mapSel
 //@   loop 1 invariant rangeindex + 1 <= len(els) && same(els, expr.(*ast.ListExpr).Elems) && scalls() == rangeindex + 1 && forall(j, 0, rangeindex + 1, scall(j, interp, els[j], env))
+//@   loop 1 invariant #values l != nil && isListV(l.Vl()) && len(l.V) == sz && sz == len(els) && forall(j, 0, rangeindex + 1, l.V[j] == sret(j, interp))
 //@   loop 2 invariant rangeindex + 1 <= len(expr.(*ast.MapExpr).Pairs) && scalls() == 2 * (rangeindex + 1) && forall(j, 0, rangeindex + 1, scall(2 * j, interp, expr.(*ast.MapExpr).Pairs[j].Key, env) && scall(2 * j + 1, interp, expr.(*ast.MapExpr).Pairs[j].Val, env))
 //@   loop 3 invariant rangeindex + 1 <= len(expr.(*ast.ObjExpr).Fields) && scalls() == rangeindex + 1 && forall(j, 0, rangeindex + 1, scall(j, interp, expr.(*ast.ObjExpr).Fields[j].Val, env))
+//@   loop 3 invariant #values m != nil && isObjV(m.Vl()) && forall(j, 0, rangeindex + 1, m.V[j] == sret(j, interp))
 //@   ensures #leaf typeis(expr, *ast.StrExpr) || typeis(expr, *ast.NumExpr) || typeis(expr, *ast.BoolExpr) || typeis(expr, *ast.TimeExpr) || typeis(expr, *ast.IdentExpr) ==> scalls() == 0
 //@   ensures #list typeis(expr, *ast.ListExpr) ==> scalls() == len(expr.(*ast.ListExpr).Elems) && forall(j, 0, len(expr.(*ast.ListExpr).Elems), scall(j, interp, expr.(*ast.ListExpr).Elems[j], env))
+//@   ensures #list-value typeis(expr, *ast.ListExpr) && len(expr.(*ast.ListExpr).Elems) > 0 ==> isListV(result) && len(result.List().V) == len(expr.(*ast.ListExpr).Elems) && forall(j, 0, len(expr.(*ast.ListExpr).Elems), result.List().V[j] == sret(j, interp))
 //@   ensures #map typeis(expr, *ast.MapExpr) ==> scalls() == 2 * len(expr.(*ast.MapExpr).Pairs) && forall(j, 0, len(expr.(*ast.MapExpr).Pairs), scall(2 * j, interp, expr.(*ast.MapExpr).Pairs[j].Key, env) && scall(2 * j + 1, interp, expr.(*ast.MapExpr).Pairs[j].Val, env))
 //@   ensures #obj typeis(expr, *ast.ObjExpr) ==> scalls() == len(expr.(*ast.ObjExpr).Fields) && forall(j, 0, len(expr.(*ast.ObjExpr).Fields), scall(j, interp, expr.(*ast.ObjExpr).Fields[j].Val, env))
+//@   ensures #obj-value typeis(expr, *ast.ObjExpr) && len(expr.(*ast.ObjExpr).Fields) > 0 ==> isObjV(result) && forall(j, 0, len(expr.(*ast.ObjExpr).Fields), result.Obj().V[j] == sret(j, interp))
 //@   ensures #call typeis(expr, *ast.CallExpr) ==> scalls() == 3 && scall(0, resolveFun, expr.(*ast.CallExpr), env) && scall(1, interpArgs, sret(0, resolveFun), expr.(*ast.CallExpr), env) && scall(2, Call, sret(0, resolveFun)) && same(sarg(2, Call, 1), sret(1, interpArgs)) && result == sret(2, Call)
 //@   ensures #subscript typeis(expr, *ast.SubscriptExpr) ==> scalls() == 3 && scall(0, interp, expr.(*ast.SubscriptExpr).Var, env) && scall(1, interp, expr.(*ast.SubscriptExpr).Idx, env) && (scall(2, listSel, sret(0, interp), sret(1, interp)) && result == sret(2, listSel) || scall(2, mapSel, sret(0, interp), sret(1, interp)) && result == sret(2, mapSel))
 //@   ensures #member typeis(expr, *ast.MemberExpr) ==> scalls() == 1 && scall(0, interp, expr.(*ast.MemberExpr).Obj, env)
@@ -51,6 +55,8 @@ package interp
 //@   preserves anycell([]ast.Expr), anycell([]ast.Pair), anycell([]ast.Field)
 //@   records interp thunkify
 //@   loop 1 invariant rangeindex + 1 <= len(e.Args) && scalls() == rangeindex + 1 && forall(j, 0, rangeindex + 1, ite(fun.Lazy, scall(j, thunkify, e.Args[j], env, fun.Type.Fun().Param[j]), scall(j, interp, e.Args[j], env)))
+//@   loop 1 invariant #values len(args) == len(e.Args) && isfresh(args) && forall(j, 0, rangeindex + 1, args[j] == ite(fun.Lazy, sret(j, thunkify), sret(j, interp)))
+//@   ensures #values len(result) == len(e.Args) && forall(j, 0, len(e.Args), result[j] == ite(fun.Lazy, sret(j, thunkify), sret(j, interp)))
 //@   ensures #strict !fun.Lazy ==> scalls() == len(e.Args) && forall(j, 0, len(e.Args), scall(j, interp, e.Args[j], env))
 //@   ensures #lazy fun.Lazy ==> scalls() == len(e.Args) && forall(j, 0, len(e.Args), scall(j, thunkify, e.Args[j], env, fun.Type.Fun().Param[j]))
 
